@@ -484,10 +484,10 @@ func GenHistory(rng *rand.Rand, drv Driver, profile string) []Op {
 		switch x := rng.Intn(100); {
 		case x < 30:
 			fs = rng.Intn(65)
-		case x < 62:
-			fs = 64 + rng.Intn(960)
-		case x < 78:
-			fs = 1024 + rng.Intn(3000)
+		case x < 65:
+			fs = 64 + rng.Intn(540)
+		case x < 76:
+			fs = 600 + rng.Intn(3480)
 		default:
 			fs = 4100 + rng.Intn(max(1, min(drv.MaxSize, 100<<10)-4100))
 		}
@@ -786,7 +786,7 @@ func (h *history) tornCase(tw *tornWorld, tailName, srcTail string, finalID uint
 		}
 	} else {
 		// the restarted log wrote to (or removed) the torn file: rebuild it
-		h.st.add("torn_file_modified_or_removed_by_restart", 1)
+		h.st.add("torn_file_rebuilt_after_purge_or_foreign_write", 1)
 		if err := copyFile(srcTail, tailPath, cut); err != nil {
 			h.st.add("harness_copy_errors", 1)
 		}
